@@ -95,7 +95,8 @@ func TestC19InferTotalAndSound(t *testing.T) {
 		var res proto.Results
 		var blk proto.Block
 		r := readerOf(e.B)
-		if derr := safely(func() error { return blk.DecodeBlock(r, rev, res.Auto()) }); derr != nil {
+		auto := res.Auto()
+		if derr := safely(func() error { return blk.DecodeBlock(r, rev, auto) }); derr != nil {
 			rt.Fatalf("type %q infers, but decoding %d rows of it through Results.Auto() fails: %v\nvalues %s", s, rows, derr, ref.ShowRows(pt, vals))
 		}
 		if !atEOF(r) {
@@ -110,6 +111,33 @@ func TestC19InferTotalAndSound(t *testing.T) {
 		}
 		if j, ok := ref.EqualRows(pt, got, vals); !ok {
 			rt.Fatalf("type %q decoded through inference: row %d = %s want %s", s, j, ref.Show(pt, got[max(j, 0)]), ref.Show(pt, vals[max(j, 0)]))
+		}
+		// ... and so does the next block of the stream, through the same inferred column. (Not for
+		// the DecimalN(S) spellings, for the reason given above: the bound column reports "DecimalN".)
+		if aliasSpelling {
+			return
+		}
+		rows2 := gen.RowCount().Draw(rt, "rows-2")
+		var vals2 []ref.Val
+		for i := 0; i < rows2; i++ {
+			vals2 = append(vals2, vg.Draw(rt, "v2"))
+		}
+		e2 := &ref.Enc{NoMap: true}
+		ref.EncodeBlock(e2, rev, &ref.Block{Info: ref.BlockInfo{BucketNum: -1}, Columns: []ref.Column{{Name: "c", T: pt, Rows: vals2}}})
+		r2 := readerOf(e2.B)
+		var blk2 proto.Block
+		if derr := safely(func() error { return blk2.DecodeBlock(r2, rev, auto) }); derr != nil {
+			rt.Fatalf("type %q: second block (%d rows after %d) through the inferred column fails: %v", s, rows2, rows, derr)
+		}
+		if !atEOF(r2) || len(res) != 1 || res[0].Data.Rows() != rows2 {
+			rt.Fatalf("type %q: second block of %d rows after %d: %d columns / %d rows, consumed all: %v", s, rows2, rows, len(res), res[0].Data.Rows(), atEOF(r2))
+		}
+		got2, rerr := gen.ReflectRows(pt, res[0].Data)
+		if rerr != nil {
+			rt.Fatalf("type %q: reading inferred column %T after the second block: %v", s, res[0].Data, rerr)
+		}
+		if j, ok := ref.EqualRows(pt, got2, vals2); !ok {
+			rt.Fatalf("type %q, second block of %d rows after %d through the same inferred column: row %d = %s want %s", s, rows2, rows, j, ref.Show(pt, got2[max(j, 0)]), ref.Show(pt, vals2[max(j, 0)]))
 		}
 	})
 }
